@@ -234,13 +234,18 @@ type routerOpt struct {
 	origins, allowH, exposed                   []string
 	maxAge                                     int
 	cred                                       bool
+	recKind                                    string // with recover: "" = the harness's function, else s|w|l|g<status> (a bundled option)
 }
 
 func (g *G) routerLine(id int, o routerOpt) {
 	if !o.lock && g.chance(0.15) { // the lock must be invisible to a single goroutine
 		o.lock = true
 	}
-	g.emit("router %d %s %s %s %s %s %s %s %s %s %s %d %s", id, encB(o.name), b2s(o.trace), b2s(o.lock), b2s(o.recover),
+	rec := b2s(o.recover)
+	if o.recover && o.recKind != "" {
+		rec = o.recKind
+	}
+	g.emit("router %d %s %s %s %s %s %s %s %s %s %s %d %s", id, encB(o.name), b2s(o.trace), b2s(o.lock), rec,
 		encB(o.domain), encKVs(o.icpt), b2s(o.cors), encL(o.origins), encL(o.allowH), encL(o.exposed), o.maxAge, b2s(o.cred))
 }
 
@@ -1044,11 +1049,16 @@ func streamFault(g *G) { // C16
 	rid, gid := 1, 1
 	for !g.full() {
 		rec := g.chance(0.6)
-		g.routerLine(rid, routerOpt{name: "f", recover: rec, trace: g.chance(0.5)})
+		recKinds := []string{"", "", "s500", "w503", "l400", "g418", "s599", "s200", "w404"}
+		g.routerLine(rid, routerOpt{name: "f", recover: rec, recKind: g.pick(recKinds), trace: g.chance(0.5)})
 		g.emit("use %d 1", rid)
 		g.emit("handle %d /a 1 2,3 %s", rid, encL([]string{"GET", "POST"}))
 		g.emit("handle %d %s 2 %%- %s", rid, encB("/u/{id}"), encL([]string{"PUT"}))
-		g.emit("group %d %s 0 %%_ %%- 0 %%- %%- %%- 0 0", gid, b2s(g.chance(0.6)))
+		grec := b2s(g.chance(0.6))
+		if k := g.pick(recKinds); grec == "1" && k != "" {
+			grec = k
+		}
+		g.emit("group %d %s 0 %%_ %%- 0 %%- %%- %%- 0 0", gid, grec)
 		g.emit("group-new %d %d %s pv:%%_:v1", gid, rid+1, encB("gn"))
 		g.emit("handle %d /a 3 4 %s", rid+1, encL([]string{"GET"}))
 		g.emit("hosts %d %s", 900+gid, encL([]string{"only.example.org"}))
